@@ -67,6 +67,7 @@ func verifAllocBound(n int)
 func verifLoopBound(fnSuffix string, iterations int)
 func verifConcurrent(ops ...func())
 func verifJSONTransparent(v interface{}) bool
+func verifJSONCopy(dst, src interface{})
 func verifJSONParse(b []byte) int
 func verifJSONValid(h int) bool
 func verifJSONHas(h int, path string) bool
